@@ -70,6 +70,13 @@ def width_of(t):
         return 8 * (max(j for j, _ in t[1]) + 1)
     if k == "elem":
         return t[1]
+    if k == "floordiv":
+        c = t[2]
+        return max(1, width_of(t[1]) - (c.bit_length() - 1)) if isinstance(c, int) and c > 0 else width_of(t[1])
+    if k == "op" and t[1] == "mul":
+        return min(64, width_of(t[2]) + width_of(t[3]))
+    if k == "op" and t[1] == "add":
+        return min(64, max(width_of(t[2]), width_of(t[3])) + 1)
     return 64
 
 
@@ -506,7 +513,15 @@ class HInterp:
                 p.env[name] = a
             elif ty is not None and ty.kind in ("uint", "int"):
                 if ty.kind != "uint":
-                    raise HUndecided("signed parameter %s of %s" % (name, callee.name))
+                    # a signed 64-bit parameter holds every value below 2**63 unchanged: positions into the key and small counts
+                    try:
+                        narrow = ty.bits == 64 and width_of(a) <= 63
+                    except (AnalysisError, TypeError, IndexError, KeyError):
+                        narrow = False
+                    if not narrow and not (ty.bits == 64 and self.conc(a) is not None and 0 <= self.conc(a) < 2 ** 63):
+                        raise HUndecided("signed parameter %s of %s" % (name, callee.name))
+                    p.env[name] = a
+                    continue
                 p.env[name] = tr(ty.bits, a)
             else:
                 raise HUndecided("parameter type of %s.%s" % (callee.name, name))
@@ -783,6 +798,18 @@ class HInterp:
         elem_w = None
         body_env_elem = None
         idxvar = None
+        if not isinstance(it, ast.Name) and not (isinstance(it, ast.Call) and dotted(it.func) == "range") and isinstance(s.target, ast.Name):
+            # `for v in np.frombuffer(key[:n], np.uintW):` -- the block array need not be bound to a name first
+            try:
+                itv = self.ev(it, p)
+            except HUndecided:
+                itv = None
+            if isinstance(itv, BlocksV):
+                tmpn = "blocks__%d" % id(s)
+                p.env[tmpn] = itv
+                it = ast.copy_location(ast.Name(id=tmpn, ctx=ast.Load()), it)
+                if self.case is not None and not self.case[1]:
+                    return [("fall", p, None)]
         if isinstance(it, ast.Name) and isinstance(p.env.get(it.id), BlocksV) and isinstance(s.target, ast.Name):
             elem_w = p.env[it.id].w
             body_env_elem = s.target.id
@@ -904,13 +931,14 @@ class HInterp:
                         c = self.conc(it)
                         if c is not None and 0 <= c < self.B:
                             return leaf("tail[%d]" % c, 8)
-                    nbB = op("mul", ("floordiv", leaf("len", 63), self.B), C(self.B))
-                    try:
-                        d = nf(op("sub", it, nbB))
-                    except (AnalysisError, TypeError, IndexError, KeyError):
-                        d = None
-                    if d is not None and d[0] == "c" and 0 <= d[1] < self.B:
-                        return leaf("tail[%d]" % d[1], 8)
+                    for ln_ in (leaf("len", 63), tr(32, leaf("len", 63))):      # the length as such, or held in a 32-bit local
+                        nbB = op("mul", ("floordiv", ln_, self.B), C(self.B))
+                        try:
+                            d = nf(op("sub", it, nbB))
+                        except (AnalysisError, TypeError, IndexError, KeyError):
+                            d = None
+                        if d is not None and d[0] == "c" and 0 <= d[1] < self.B:
+                            return leaf("tail[%d]" % d[1], 8)
                     # any other offset: an uninterpreted byte of the key named by its offset term (differs from every tail[j])
                     return leaf("key[%s]" % show(i)[:90], 8)
                 raise HUndecided("byte access `%s`" % unparse(e))
@@ -933,6 +961,15 @@ class HInterp:
                 or (isinstance(a, tuple) and a and a[0] == "tailwords") or (isinstance(b, tuple) and b and b[0] == "tailwords"):
             raise HUndecided("operator on a non-scalar")
         n = type(o).__name__
+        if n == "Sub":
+            # len - (len & (B-1))  ==  (len // B) * B   (B a power of two): the bytes covered by whole blocks
+            try:
+                na_, nb_ = nf(a), nf(b)
+            except (AnalysisError, TypeError, IndexError, KeyError):
+                na_ = nb_ = None
+            if nb_ is not None and _is_residue(nb_, self.B) and na_ in (("leaf", "len", 63), ("tr", 32, ("leaf", "len", 63))):
+                inner = leaf("len", 63) if na_[0] == "leaf" else tr(32, leaf("len", 63))
+                return op("mul", ("floordiv", inner, self.B), C(self.B))
         if n in RING:
             return op(RING[n], a, b)
         if n in BITS:
